@@ -17,7 +17,8 @@ CONSTANTS Kinds,        \* subset of {"choice", "plain", "confirm"}
                         \*   0 nothing, 1 appended the last choice, 2 replaced the first choice, 3 removed a trailing one
           RouteIds,     \* which of the routes by which the I/O is prepared (see RouteOf)
           Reconfs,      \* what the caller does before asking the object again: 0 nothing, 2 set_multi_select(not multi),
-                        \* 3 io.set_input(<one line>) - a new, shorter script on the SAME I/O, 4 io.clear_input()
+                        \* 3 io.set_input(<one line>) - a new, shorter script on the SAME I/O, 4 io.clear_input(),
+                        \* 5 a new StreamInputStream / IO around the same raw stream (route 9 only)
           Rounds        \* 1: one dialogue;  2: the same question OBJECT is asked a second time on the rest of the input
 
 VARIABLES idx,          \* the indices the initial state was built from (constant along a behaviour)
@@ -108,15 +109,18 @@ RouteOf(rid, ls, b) ==
        [] rid = 7 -> <<Op0("ctor", ls, FALSE), Op0("io_inter", <<>>, ~b), Op0("clear_input", <<>>, FALSE),      \* switched twice, reloaded
                        Op0("input_inter", <<>>, b), Op0("set_input", ls, FALSE)>>
        [] rid = 8 -> <<Op0("ctor", ls, FALSE)>>                                                                \* nothing said: interactive
+       [] rid = 9 -> <<Op0("ctor_stream", ls, FALSE), Op0("io_inter", <<>>, b)>>                               \* IO over a raw io.BytesIO
 
 Init == (InitChoice \/ InitPlain \/ InitConfirm)
         /\ \E rid \in RouteIds : LET r == RouteOf(rid, script, q.interactive)
-                                  IN /\ (rid # 1 => (~q.interactive \/ (Len(script) <= 1 /\ q.maxAtt <= 1 /\ ~q.multi /\ ~q.hasDef)))
+                                  IN /\ (rid = 9 => (Rounds = 2 /\ q.built = q.choices /\ q.interactive))
+                                     /\ (rid \notin {1, 9} => (~q.interactive \/ (Len(script) <= 1 /\ q.maxAtt <= 1 /\ ~q.multi /\ ~q.hasDef)))
                                      /\ route = r /\ EnvScript(r) = script /\ EnvInter(r) = q.interactive
 \* the same question object is asked again where the first dialogue stopped reading
 Again == /\ pc = "done" /\ round < Rounds /\ round' = round + 1
          /\ \E rc \in Reconfs :
               /\ (rc = 2 => q.kind = "choice") /\ (rc \in {3, 4} => q.built = q.choices)
+              /\ (rc = 5) = (route[1].op = "ctor_stream")
               /\ first' = [out |-> out, r |-> obs.reads, n |-> pos - start, e |-> obs.errs, w |-> obs.prompts, rc |-> rc]
               /\ IF rc = 2 THEN ReAskAs([q EXCEPT !.multi = ~q.multi], script, pos)
                  ELSE IF rc = 3 THEN ReAsk(<<AnswerPool[5]>>, 0)        \* the input is replaced: reading starts at its first line
